@@ -297,6 +297,16 @@ def direct_sweep():
             must_raise("C08:invalid-accepted:symbol", "%s table.symbol(%r)" % (tname, a_name), lambda: tab.symbol(a_name), (ValueError,), table=tname, input=a_name)
             must_raise("C08:invalid-accepted:isotope-string", "%s table.isotope(%r)" % (tname, a_name), lambda: tab.isotope(a_name), (ValueError,), table=tname, input=a_name)
     try:
+        ns = {}
+        core.define_elements(PUB, ns)
+        core.define_elements(PRIV, ns)          # exporting another table replaces what the namespace held
+        for key in ("Fe", "iron", "D", "deuterium", "n", "H", "hydrogen"):
+            want = PRIV.name(key) if key.islower() and len(key) > 2 else PRIV.symbol(key)
+            same("C08:route:define_elements", "define_elements(private table, namespace that already holds %r)" % key,
+                 ns.get(key), want, table="private", input=key)
+    except Exception as e:  # noqa
+        fail("C08:sweep-raises", "define_elements raised %s: %s" % (type(e).__name__, e), trace=traceback.format_exc()[-600:])
+    try:
         dropped_table()
     except Exception as e:  # noqa
         fail("C08:sweep-raises", "the dropped-table history raised %s: %s" % (type(e).__name__, e), trace=traceback.format_exc()[-800:])
